@@ -256,11 +256,14 @@ pub struct EditedState {
 
 impl EditedState {
     pub fn state(&self) -> RawState {
-        let mut st = assemble(&self.base);
-        for e in &self.edits {
-            apply_edit(&mut st, e);
-        }
-        st
+        crate::runner::guard("edited state", || {
+            let mut st = assemble(&self.base);
+            for e in &self.edits {
+                apply_edit(&mut st, e);
+            }
+            st
+        })
+        .unwrap_or_else(RawState::empty)
     }
 }
 
@@ -506,11 +509,14 @@ pub struct FenCase {
 
 impl FenCase {
     pub fn text(&self) -> String {
-        let mut t = record_text(&self.source);
-        for m in &self.muts {
-            t = apply_fen_mut(&t, m);
-        }
-        t
+        crate::runner::guard("fen case text", || {
+            let mut t = record_text(&self.source);
+            for m in &self.muts {
+                t = apply_fen_mut(&t, m);
+            }
+            t
+        })
+        .unwrap_or_default()
     }
 }
 
